@@ -143,6 +143,22 @@ def render_fixed(table, widths, eol="\n", final_eol=True):
 # --------------------------------------------------------------------------------------------
 # the client: step-wise use of the real API
 # --------------------------------------------------------------------------------------------
+PREAMBLE = "# exported by the accounting system, 3 records follow\n"
+
+
+def stream_behind_preamble(fs, path, data, encoding, kind):
+    """A text stream whose first line the caller has already consumed itself (a banner, a ``sep=;`` hint): the
+    data handed to cutplace begin at the stream's current position.  kind: "stream" (simulated file) | "stringio"."""
+    if kind == "stream":
+        fs.store(path, PREAMBLE.encode(encoding) + data)
+        stream = fs.text_stream(path, encoding=encoding, newline="")
+    else:
+        stream = io.StringIO(PREAMBLE + data.decode(encoding), newline="")
+    consumed = stream.readline()
+    assert consumed == PREAMBLE, consumed
+    return stream
+
+
 class ReturnedRowChanged(Exception):
     """A row object handed out by a reader was modified by the reader afterwards."""
 
